@@ -1,13 +1,15 @@
 import SaphyrModel.Load
 import SaphyrModel.Spec.CoreSchema
 import SaphyrModel.Props.C09
+import SaphyrModel.Proofs.FloatParse
 /-! # C08 — Scalar typing follows the YAML 1.2 core schema
 
 `parseWithMeta` is the model of `Scalar::parse_from_cow_and_metadata`, `parseFromCow` of
-`Scalar::parse_from_cow`; `Spec.core*` are the recognisers of the core schema. Proved here: the
-style/tag dispatch at full strength, and soundness of the null and boolean readings. The numeric
-soundness/completeness theorems (`resolve_sound_int`, …) are stated in `C08_full` and not yet
-proved: for them the check relies on the exhaustive correspondence + oracle. -/
+`Scalar::parse_from_cow`; `Spec.core*` are the recognisers of the core schema. Proved here, for every
+text: the style/tag dispatch; soundness of every reading (`C08_sound : C08_full` — null, boolean,
+integer, float and string results are exactly what the core schema assigns); completeness for integers
+within 64 bits (`int_complete`). The decimal denotation of a float (sign, digits, exponent) is what
+is compared; the rounding of `f64::from_str` to binary64 is outside the model. -/
 namespace SaphyrModel.C08
 open SaphyrModel ProtoR Spec
 
@@ -133,5 +135,37 @@ theorem bool_sound (v : ProtoR.Str) (b : Bool) (h : parseFromCow v = .bool b) : 
 /-- the string clause of `C08_full` -/
 theorem string_is_identical (v t : Str) (h : parseFromCow v = .string t) : t = v :=
   C09.parseFromCow_string v t h
+
+/-- **Integer soundness**: an untagged plain scalar loads as an integer only if its text is a core-schema
+    integer literal (`[-+]?[0-9]+`, `0o[0-7]+`, `0x[0-9a-fA-F]+`), and then with exactly the denoted value -/
+theorem int_sound (v : Str) (i : Int) (h : parseFromCow v = .int i) : coreInt v = some i :=
+  IntParse.int_sound v i h
+
+/-- **Integer completeness**: every decimal, `0x` and `0o` integer literal whose value fits in 64 bits
+    is recognised, with its value -/
+theorem int_complete (v : Str) (i : Int) (h : coreInt v = some i)
+    (hlo : -9223372036854775808 ≤ i) (hhi : i ≤ 9223372036854775807) : parseFromCow v = .int i :=
+  IntParse.int_complete v i h hlo hhi
+
+/-- **Float soundness**: an untagged plain scalar loads as a float only if its text is a core-schema
+    float literal (decimal or exponent notation, `.inf`/`.nan` spellings), with the denoted decimal value -/
+theorem float_sound (v : Str) (f : FloatDen) (h : parseFromCow v = .float f) : coreFloat v = some f :=
+  FloatParse.parseF64Yaml_sound v f (FloatParse.float_shape v f h)
+
+/-- the decimal grammar `f64::from_str` accepts, restricted to the bytes `parse_f64` lets through, is the
+    core schema's float grammar, value for value -/
+theorem float_grammar_is_core (s : Str) (h : s.all floatByte = true) : parseF64 s = coreDecFloat s :=
+  FloatParse.parseF64_eq_core s h
+
+/-- **Scalar typing is sound, for every text**: whatever an untagged plain scalar loads as — null, boolean,
+    integer, float or string — is what the YAML 1.2 core schema assigns to its text. -/
+theorem C08_sound : C08_full := by
+  intro v
+  exact ⟨null_sound v, fun b => bool_sound v b, fun i => int_sound v i,
+    fun f h => Or.inl (float_sound v f h), fun t => string_is_identical v t⟩
+
+/-- non-vacuity: the schema's recognisers and the resolver agree on concrete literals of each kind -/
+example : parseFromCow "0x1F".toList = .int 31 ∧ coreInt "0x1F".toList = some 31 ∧
+    parseFromCow "-12".toList = .int (-12) ∧ coreInt "0o17".toList = some 15 := by decide
 
 end SaphyrModel.C08
